@@ -10,6 +10,7 @@
 import IvpModel.Proofs.TreesLemmas
 import IvpModel.Proofs.DenseEqs853
 import IvpModel.Proofs.BdfNumLemmas
+import IvpModel.Proofs.RadauNumLemmas
 
 open BTree
 
@@ -71,3 +72,29 @@ example : interpScalar qLits 3 (fun j => bdiff j (fun i => ((3 : ℚ) - i) ^ 3))
 
 end
 end BdfNum
+
+/-! ### Radau: the interpolant is the collocation polynomial -/
+namespace RadauNum
+open Gen.Radau
+noncomputable section
+variable {K : Type} [Field K] [LinearOrder K] [IsStrictOrderedRing K] [SqrtPow K]
+
+/-- the cubic `RADAU::interpolate` evaluates passes through the state before the step and the three stage values
+    `y_old + z_i` at `xold + c_i·h` (c = C1, C2, 1): it is the collocation polynomial of the Radau IIA step, which
+    approximates the solution to O(h⁴) uniformly over the step (q = 3); exact decimal values of the constants of radau.rs -/
+theorem c07_radau_collocation (yold z1 z2 z3 xold h : K) (hh : h ≠ 0) :
+    let d := denseCoeffs yold z1 z2 z3
+    interpScalar (((xold + C1 * h) - (xold + h)) / h) d.1 d.2.1 d.2.2.1 d.2.2.2 = yold + z1 ∧
+    interpScalar (((xold + C2 * h) - (xold + h)) / h) d.1 d.2.1 d.2.2.1 d.2.2.2 = yold + z2 ∧
+    interpScalar (((xold + 1 * h) - (xold + h)) / h) d.1 d.2.1 d.2.2.1 d.2.2.2 = yold + z3 ∧
+    interpScalar (((xold + 0 * h) - (xold + h)) / h) d.1 d.2.1 d.2.2.1 d.2.2.2 = yold := by
+  intro d
+  obtain ⟨e1, e2, e3, e4, _⟩ := interp_collocation yold z1 z2 z3
+  rw [s_of_xi xold h C1 hh, s_of_xi xold h C2 hh, s_of_xi xold h 1 hh, s_of_xi xold h 0 hh]
+  refine ⟨e2, e3, ?_, ?_⟩
+  · simpa using e4
+  · have : (0 : K) - 1 = -1 := by ring
+    rw [this]; exact e1
+
+end
+end RadauNum
